@@ -51,6 +51,15 @@ def evaluate(rep, prop, progs, results, oracle, known, stuck_is_violation=True):
             last = next((l for l in reversed(res.trace) if l.startswith("call ") or l.startswith("h ")), "")
             viol.append("the runtime hung (no progress in 10 s of real time) after `%s`" % last)
         viol += oracle(res)
+        if res.reject and not viol:
+            # the acceptor's guards on API returns and on quiescent states are the property clauses
+            # themselves (the theorems are stated over them); the model state they are evaluated in was
+            # validated event by event up to this point, so the rejected run is a failing history.
+            # A rejected internal (hook) event is only a broken correspondence.
+            i, v = res.reject
+            w = res.trace[i].split()
+            if w and w[0] in ("ret", "q"):
+                viol.append("clause guard of the Lean acceptor rejected the real run at `%s`: %s" % (res.trace[i], v))
         if stuck_is_violation:
             for i, v in res.stuck_notes:
                 viol.append("lost wake-up at quiescence: " + v[len("ok stuck: "):])
